@@ -352,7 +352,8 @@ def verify_function(world, contract, report=None, only_cfg=None, scope=None):
             if npaths > MAX_PATHS:
                 rep.unsupported.append((cname, 'path limit exceeded'))
                 break
-            ctx = Ctx(prefix, fname='%s[%s]' % (short, cname), opts={'small_scope': scope is not None, 'stop_before': getattr(contract, 'stop_before', None)})
+            ctx = Ctx(prefix, fname='%s[%s]' % (short, cname), opts={'small_scope': scope is not None, 'stop_before': getattr(contract, 'stop_before', None),
+                                                                         'no_index': not getattr(contract, 'check_index', True)})
             ctx.modifies = set(contract.modifies)
             interp = Interp(ctx, world)
             outcome = None
@@ -463,6 +464,24 @@ def verify_fragment(world, contract, report=None, only_cfg=None, scope=None):
             return rep
         node = types.SimpleNamespace(body=fd.body[i0[0]:i1[0]])
         short = contract.qualname.replace('tangermeme.', '') + '#stmts'
+    elif getattr(contract, 'stmt_block', None) is not None:
+        # `count` consecutive statements of some (nested) block, starting at the statement whose text
+        # starts with the anchor
+        anchor, count = contract.stmt_block
+        norm = lambda st: _ast.unparse(st).replace('\n', ' ')
+        found = []
+        for n in _ast.walk(fd):
+            for fld in ('body', 'orelse', 'finalbody'):
+                blk = getattr(n, fld, None)
+                if isinstance(blk, list):
+                    for i, st in enumerate(blk):
+                        if isinstance(st, _ast.stmt) and norm(st).startswith(anchor):
+                            found.append(blk[i:i + count])
+        if len(found) != 1 or len(found[0]) != count:
+            rep.unsupported.append(('bind', 'statement block %r not found uniquely' % (contract.stmt_block,)))
+            return rep
+        node = types.SimpleNamespace(body=found[0])
+        short = contract.qualname.replace('tangermeme.', '') + '#block'
     else:
         for n in _ast.walk(fd):
             if isinstance(n, (_ast.For, _ast.While)) and ids.get(id(n)) == contract.loop_ordinal:
@@ -481,6 +500,9 @@ def verify_fragment(world, contract, report=None, only_cfg=None, scope=None):
             ctx = Ctx(prefix, fname='%s[%s]' % (short, cname), opts={'small_scope': scope is not None})
             ctx.modifies = set(contract.modifies)
             ctx.frame_checked = False
+            # a fragment starts from an assumed context: a refuted obligation is a violation only when
+            # the contract's replay confirms it on the whole real function
+            ctx.approx = True
             interp = Interp(ctx, world)
             outcome = None
             try:
